@@ -157,6 +157,33 @@ func runC37(c *Ctx) {
 					}
 				}
 			}
+			// or the bound comes from a helper over the mode: its feasible non-nil results under this mode
+			for _, ci := range allCalls(fn) {
+				h := samePkgHelper(fn, ci.Common())
+				if h == nil || !reach[ci.Block()] {
+					continue
+				}
+				hval := map[string]int64{}
+				for i, a := range ci.Common().Args {
+					if desc(a) == "p3" {
+						hval[fmt.Sprintf("p%d", i)] = m.val
+					}
+				}
+				if len(hval) == 0 {
+					continue
+				}
+				hreach := psReachVal(h, []*ssa.BasicBlock{h.Blocks[0]}, nil, hval)
+				for _, hb := range h.Blocks {
+					hr, ok := hb.Instrs[len(hb.Instrs)-1].(*ssa.Return)
+					if !ok || !hreach[hb] || len(hr.Results) == 0 {
+						continue
+					}
+					if t := trace(hr.Results[0]); strings.Contains(t, "twoTo") {
+						got[t] = true
+						n++
+					}
+				}
+			}
 			okM := n > 0 && len(got) == 1 && got[m.want]
 			c.Check(okM, "threshold-upper-bound", key+":"+m.name, fn.Pos(), m.name+" scales by "+m.want, fmt.Sprintf("in %s mode the threshold is scaled by %v, expected %s", m.name, sortedKeys(got), m.want))
 		}
@@ -203,6 +230,15 @@ func runC37(c *Ctx) {
 							}
 						}
 					}
+				}
+			}
+		}
+		// or written as poolStake = min(poolStake, totalStake)
+		for _, ci := range allCalls(fn) {
+			if b, isB := ci.Common().Value.(*ssa.Builtin); isB && b.Name() == "min" && len(ci.Common().Args) == 2 {
+				a0, a1 := trace(ci.Common().Args[0]), trace(ci.Common().Args[1])
+				if a0 == "p0" && a1 == "p1" || a0 == "p1" && a1 == "p0" {
+					okCap = true
 				}
 			}
 		}
@@ -293,17 +329,19 @@ func runC37(c *Ctx) {
 	}
 	if fn := c.SSAFunc(rel, "thresholdFromBoundedProbability"); fn != nil {
 		key := ssaFuncKey(fn)
+		traceOpaque["oneMinusFPowerSigmaBounds"] = true
+		defer delete(traceOpaque, "oneMinusFPowerSigmaBounds")
 		for _, b := range fn.Blocks {
 			r, ok := b.Instrs[len(b.Instrs)-1].(*ssa.Return)
 			if !ok {
 				continue
 			}
-			lo := trace(returnedValue(r, 0))
+			lo := traceIP(fn, returnedValue(r, 0))
 			res := returnedValue(r, 1)
 			okRes := false
 			var resT string
 			if bo, isBo := res.(*ssa.BinOp); isBo && bo.Op == token.EQL && desc(bo.Y) == "0" {
-				resT = trace(bo.X)
+				resT = traceIP(fn, bo.X)
 				okRes = strings.HasPrefix(resT, "Cmp(Int(") && strings.Contains(resT, ",Int(")
 			}
 			// lo is floor of (1 - hiPower)*upper ; hi is floor of (1 - loPower)*upper
